@@ -22,8 +22,10 @@ func RemoveTempName(in string) string {
 	return in
 }
 
+// EscapeDotGraph escapes the characters that have a meaning inside a quoted
+// DOT record label: the quote itself and the record metacharacters.
 func EscapeDotGraph(in string) string {
-	res := strings.ReplaceAll(in, "<", "\\<")
-	res = strings.ReplaceAll(res, ">", "\\>")
-	return res
+	r := strings.NewReplacer("\\", "\\\\", "\"", "\\\"", "<", "\\<", ">", "\\>",
+		"{", "\\{", "}", "\\}", "|", "\\|")
+	return r.Replace(in)
 }
